@@ -89,6 +89,13 @@ def litmus_shapes():
     out.append({"threads": [[spawn(2), spawn(3), ld("z"), fence("sc"), join(2), join(3)], sb1, sb2], "name": "SB+scfences+bystander-main-late", "tags": ["litmus"]})
     out.append({"threads": [[spawn(2), spawn(3), spawn(4), ld("z"), fence("sc"), join(2), join(3), join(4)], sb1, [fence("sc")], sb2],
                 "name": "SB+scfences+2bystanders", "tags": ["litmus"]})
+    # SeqCst LOADS of an unrelated location between the relaxed accesses of message passing: a SeqCst load is no fence - it
+    # orders nothing with another thread's SeqCst load or SeqCst fence, the stale read (1,0) stays possible
+    add("MP+scloads-unrelated", [[st("x", 1), ld("z", "sc"), st("y", 1)], [ld("y"), ld("z", "sc"), ld("x")]])
+    add("MP+scfence-writer+scload-reader", [[st("x", 1), fence("sc"), st("y", 1)], [ld("y"), ld("z", "sc"), ld("x")]])
+    add("MP+scload-writer+scfence-reader", [[st("x", 1), ld("z", "sc"), st("y", 1)], [ld("y"), fence("sc"), ld("x")]])
+    add("MP+sccas-fails-unrelated", [[st("x", 1), cas("z", 5, 6, "sc", "sc"), st("y", 1)], [ld("y"), cas("z", 5, 6, "sc", "sc"), ld("x")]])
+    add("MP+scloads-unrelated-3", [[st("x", 1), ld("z", "sc"), st("y", 1)], [ld("w", "sc")], [ld("y"), ld("z", "sc"), ld("x")]])
     # load buffering (the po u rf cycle is excluded by the machine itself)
     for r, w in [("rlx", "rlx"), ("acq", "rel")]:
         add(f"LB[{r},{w}]", [[ld("x", r), st("y", 1, w)], [ld("y", r), st("x", 1, w)]])
@@ -1636,6 +1643,16 @@ def limit_crash_programs():
                  [L("ahold", "a2"), L("lock", "m"), ld("x"), L("unlock", "m"), L("adropheld", "a2")], arcs=a2))
     out.append(P("lim-join-with-arc-in-frame", [spawn(2), L("ahold", "a1"), join(2), L("adropheld", "a1")], [ld("x"), ld("x"), L("adrop", "a2")], arcs=a2))
     out.append(P("lim-recv-with-guard-in-frame", [spawn(2), I("aguard", "x", k="always"), L("recv", "ch"), join(2), L("droprx", "ch")], [ld("y"), L("send", "ch", v=1)]))
+    # every kind of path entry as the one that does not fit: schedule entries, load entries, and the spurious decisions of
+    # Notify::wait / block_on (each budget from 1 to need - 1 is run: the limit is reported at every one of them)
+    out.append(P("lim-notify-wait", [spawn(2), L("nwait", "nt"), ld("x"), join(2)], [ld("x"), L("notify", "nt"), ld("x")]))
+    out.append(P("lim-notify-wait-in-thread", [spawn(2), ld("x"), L("notify", "nt"), join(2)], [ld("x"), L("nwait", "nt"), ld("x")]))
+    # (the wait late in the path: an unchecked push at a full path doubles the vector, which only goes unnoticed when the
+    # doubled capacity covers the rest of the execution)
+    out.append(P("lim-notify-wait-late", [spawn(2)] + [ld("x")] * 6 + [L("nwait", "nt"), ld("x"), join(2)], [L("notify", "nt")]))
+    out.append(P("lim-blockon-late", [spawn(2)] + [ld("x")] * 5 + [I("blockon", "w", o2="f", k="reg-check", ord="acq"), join(2)], [st("f", 1, "rel"), I("wake", "w")]))
+    out.append(P("lim-blockon", [spawn(2), I("blockon", "w", o2="f", k="reg-check", ord="acq"), join(2)], [st("f", 1, "rel"), I("wake", "w")]))
+    out.append(P("lim-loads", SJ(2) + JJ(2), [st("x", 1), st("x", 2)], [ld("x"), ld("x")]))
     out.append(P("lim-arc-api-thread-unwrap-after-join", [spawn(2), join(2), L("aunwrap", "a1")], [ld("x"), L("adrop", "a2")], arcs=a2))
     return [normalize(p) for p in out]
 
